@@ -57,7 +57,7 @@ Section StepG.
     - left. assert (t_cycle (S w) = t_cycle (S y)) by (clear - E H1 Q1 Ec B3; lia).
       split; [assumption|]. destruct (Z.le_gt_cases 4 (t_state (S w))) as [L|L]; [exact L|exfalso].
       assert (0 < 4 - t_state (S w) -> False); [|lia]. intros _.
-      specialize (B2 ltac:(lia)). clear - E H1 H B2. lia.
+      specialize (B2 ltac:(clear - L; lia)). clear - E H1 H B2. lia.
   Qed.
 
   Lemma and_dec (A B : Prop) : {A} + {~ A} -> {B} + {~ B} -> {A /\ B} + {~ (A /\ B)}.
@@ -132,10 +132,10 @@ Section StepG.
     assert (Hm2 : (kind_of m =? 2) = false) by (apply Z.eqb_neq; lia).
     assert (Hm3 : (kind_of m =? 3) = false) by (apply Z.eqb_neq; lia).
     pose proof (g_c _ _ _ _ Gy) as Cy.
-    pose proof (full_pos y x m l1 l2 Ry Hp ltac:(lia) Hfull) as Hpos.
+    pose proof (full_pos y x m l1 l2 Ry Hp ltac:(clear - Hk4; lia) Hfull) as Hpos.
     unfold skel in K2. injection K2 as Kst Kcy Kfi Knv Kof Kng Kpa Kco Kor Kpg.
     assert (Hd : doneb (t_cycle (S y)) = false).
-    { destruct (doneb (t_cycle (S y))) eqn:E; [|reflexivity]. pose proof (g_done _ _ _ _ Gy E). lia. }
+    { destruct (doneb (t_cycle (S y))) eqn:E; [|reflexivity]. pose proof (g_done _ _ _ _ Gy E) as Hc0. clear - Hc0 Hk4. lia. }
     assert (Fy : t_fin (S y) = 0) by (rewrite (g_fin _ _ _ _ Gy), Hd; reflexivity).
     assert (G2 : good y s2).
     { constructor; rewrite ?Kst, ?Kcy, ?Kfi, ?Knv, ?Kof, ?Kng, ?Kpa, ?Kco, ?Kor, ?Kpg; simpl; try lia; try discriminate; auto.
@@ -156,12 +156,12 @@ Section StepG.
     (* state go: the consumed message is the go of the partner *)
     assert (H5 : t_state (S y) = 5 ->
                  t_committed (S y) = true /\ t_partner (S y) = Some x /\ cnt 5 (pd x y) = 1 /\ sentGo S x y).
-    { intros E5. destruct Hcase as [(H & _)|(_ & Hm5)]; [lia|].
+    { intros E5. destruct Hcase as [(H & _)|(_ & Hm5)]; [clear - H E5; lia|].
       pose proof (in_cnt_pos _ _ (in_pd _ _ _ _ _ _ Hp)) as Hc. rewrite Hm5 in Hc.
       pose proof (i_pair _ _ _ _ _ HI x y Hxy) as P.
       destruct (go_dec S y x) as [[A B]|N].
       - pose proof (p_Go1 _ _ _ _ _ P A B). destruct A as (A1 & A2 & A3). auto.
-      - pose proof (p_Go0 _ _ _ _ _ P N). lia. }
+      - pose proof (p_Go0 _ _ _ _ _ P N) as Hc0. clear - Hc Hc0. lia. }
     assert (HInv : InvA rn (updS S y s2) (pd_step pd x y (l1 ++ l2) outs)).
     { apply (step_frame d stop rn S pd y s2 x (l1 ++ l2) outs HI Ry Hact Hxy G2); [| |exact Hout0].
       - (* ---------------- receiver pairs (x', y) *)
@@ -170,7 +170,7 @@ Section StepG.
         destruct (Hpos x' Hx') as [Rx' Px'].
         pose proof (i_good _ _ _ _ _ HI x' Rx' (act_of d y x' (nbrs_sym d y x' Hx'))) as Gx'.
         destruct (tabf d stop y _ x' Gy Hx') as (T1 & _ & T3 & _ & _ & _ & _ & _).
-        specialize (T1 ltac:(lia)). specialize (T3 ltac:(lia)).
+        specialize (T1 ltac:(clear - Hk4; lia)). specialize (T3 ltac:(clear - Hk4; lia)).
         pose proof (Hfull x' Hx') as Hf.
         destruct (i_pair _ _ _ _ _ HI x' y Hx') as [V O G A1 A0 Go1 Go0 PO PS PA L Ans].
         unf. rewrite Ry, Rx' in *.
@@ -222,11 +222,11 @@ Section StepG.
         { intros m'. rewrite pd_step_send, (Hout w Hw). intros H. apply in_app_or in H as [H|H]; [left; exact H|].
           destruct (doneb (t_cycle (S y) + 1)); [destruct H|destruct H as [<-|[]]; right; reflexivity]. }
         unf. rewrite Ry, Rw in *.
-        pose proof (proj1 (b2z_leb 2 (t_state (S y))) ltac:(lia)) as B2y.
-        pose proof (proj1 (b2z_leb 4 (t_state (S y))) ltac:(lia)) as B4y.
+        pose proof (proj1 (b2z_leb 2 (t_state (S y))) ltac:(clear - Hk4; lia)) as B2y.
+        pose proof (proj1 (b2z_leb 4 (t_state (S y))) ltac:(clear - Hk4; lia)) as B4y.
         assert (C2 : cnt 2 (pd y w) = 0).
         { pose proof (cnt_nonneg 2 (pd y w)) as Hn. destruct Pw as [[P1 P2]|[P1 P2]].
-          - specialize (U3 ltac:(lia)). clear - O U3 B2y P1 Hn. lia.
+          - specialize (U3 ltac:(clear - P2; lia)). clear - O U3 B2y P1 Hn. lia.
           - clear - O U7 B2y P1 Hn. lia. }
         assert (C3 : cnt 3 (pd y w) = 0).
         { apply A0. intros [(_ & _ & Hc0) _]. clear - Hc0 Pw. lia. }
@@ -269,7 +269,7 @@ Section StepG.
       rewrite Ry, Rx', updS_same, (updS_other S y s2 x' Hx'y), Kcy, Kng in E. change (b2z (kinv x' [])) with 0 in E.
       pose proof (b2z_leb 4 (t_state (S x'))) as [B1 B2].
       destruct Px' as [[P1 P2]|[P1 P2]]; [specialize (B1 P2); clear - E P1 B1; lia|].
-      specialize (B2 ltac:(lia)). clear - E P1 B2. lia.
+      specialize (B2 ltac:(clear - P2; lia)). clear - E P1 B2. lia.
     - rewrite E5. apply (p_Go0 _ _ _ _ _ P). intros [(Hc0 & _) _]. rewrite updS_same, Kco in Hc0. discriminate.
   Qed.
 
@@ -313,7 +313,7 @@ Section StepG.
     assert (Hfull : forall x', In x' (nbr y) ->
               b2z (kinv x' (t_ng (S y))) + b2z ((x' =? x) && (kind_of (M2Gain g) =? 4)) = 1)
       by (intros x' Hx'; apply (Hfs x' Hx')).
-    pose proof (full_pos y x _ l1 l2 Ry Hp ltac:(lia) Hfull) as Hpos.
+    pose proof (full_pos y x _ l1 l2 Ry Hp ltac:(clear - Hk; lia) Hfull) as Hpos.
     destruct (g_com _ _ _ _ Gy Hcy) as (Hpg & p' & Hp' & Hpn). assert (p' = p) by congruence. subst p'.
     destruct (g_ng _ _ _ _ Gy) as [Nd Inc].
     assert (Nd1 : NoDup (map fst (t_ng (S y) ++ [(x, g)])) /\ incl (map fst (t_ng (S y) ++ [(x, g)])) (nbr y)).
@@ -322,7 +322,12 @@ Section StepG.
       - intros z Hz. apply in_app_or in Hz as [Hz|[<-|[]]]; [apply Inc; exact Hz|exact Hxy]. }
     unfold skel in K2. injection K2 as Kst Kcy Kfi Knv Kof Kng Kpa Kco Kor Kpg.
     assert (G2 : good y s2).
-    { destruct Gy. constructor; rewrite ?Kst, ?Kcy, ?Kfi, ?Knv, ?Kof, ?Kng, ?Kpa, ?Kco, ?Kor, ?Kpg; auto; try lia. }
+    { destruct Gy. constructor; rewrite ?Kst, ?Kcy, ?Kfi, ?Knv, ?Kof, ?Kng, ?Kpa, ?Kco, ?Kor, ?Kpg; auto;
+        try (intros Hc0; exfalso; clear - Hc0; lia).
+      - clear. lia.
+      - intros H. specialize (g_done H). clear - g_done Hk. lia.
+      - intros _. apply g_nv2. clear - Hk. lia.
+      - intros _. apply g_of3. clear - Hk. lia. }
     assert (Hout : forall w, to_y2 w outs = if p =? w then [M2Go go] else []).
     { intros w. unfold to_y2, outs. simpl. destruct (p =? w); reflexivity. }
     assert (HInv : InvA rn (updS S y s2) (pd_step pd x y (l1 ++ l2) outs)).
@@ -346,14 +351,14 @@ Section StepG.
         + intros (E1 & E2 & _) Sg. rewrite andb_false_r. change (b2z false) with 0.
           rewrite Go1; [reflexivity| |exact Sg]. split; [exact E1|split; [exact E2|clear - Hk; lia]].
         + intros N. rewrite andb_false_r. change (b2z false) with 0. rewrite Go0; [reflexivity|].
-          intros [(E1 & E2 & _) Sg]. apply N. split; [|exact Sg]. split; [exact E1|split; [exact E2|lia]].
+          intros [(E1 & E2 & _) Sg]. apply N. split; [|exact Sg]. split; [exact E1|split; [exact E2|clear - Hk; lia]].
         + intros f os Hin. apply (PO f os). apply Hi. exact Hin.
         + intros f os Hc0. discriminate.
         + intros a v g0 Hin. apply (PA a v g0). apply Hi. exact Hin.
         + intros Lc Lp. destruct (L Lc Lp) as [A|[B C]]; [left; exact A|right; split; [exact B|]].
           destruct (t_offerer (S x')); [exact C|]. destruct C as (C1 & C2 & _).
           split; [exact C1|split; [exact C2|right; exact Hcy]].
-        + intros Ho Hpp H4. destruct (Ans Ho Hpp H4) as [[B1 B2]|B]; [left; split; [exact B1|lia]|right; exact B].
+        + intros Ho Hpp H4. destruct (Ans Ho Hpp H4) as [[B1 B2]|B]; [left; split; [exact B1|clear; lia]|right; exact B].
       - (* ---------------- sender pairs (y, w) *)
         intros w Hw. pose proof (nbr_ne _ _ Hw) as Hwy.
         destruct (Hpos w Hw) as [Rw Pw].
@@ -368,8 +373,8 @@ Section StepG.
         { intros m'. rewrite pd_step_send, (Hout w). intros H. apply in_app_or in H as [H|H]; [left; exact H|].
           destruct (p =? w); [destruct H as [<-|[]]; right; reflexivity|destruct H]. }
         unf. rewrite Ry, Rw in *.
-        pose proof (proj1 (b2z_leb 2 (t_state (S y))) ltac:(lia)) as B2y.
-        pose proof (proj1 (b2z_leb 4 (t_state (S y))) ltac:(lia)) as B4y.
+        pose proof (proj1 (b2z_leb 2 (t_state (S y))) ltac:(clear - Hk; lia)) as B2y.
+        pose proof (proj1 (b2z_leb 4 (t_state (S y))) ltac:(clear - Hk; lia)) as B4y.
         assert (NS : ~ ((t_cycle (S y) = t_cycle (S w) /\ t_state (S y) = 5) \/ t_cycle (S y) = t_cycle (S w) + 1))
           by (clear - Hk Pw; lia).
         constructor; unf;
@@ -379,7 +384,7 @@ Section StepG.
         + change (b2z (5 =? 4)) with 0. change (b2z (4 <=? 5)) with 1. destruct (p =? w); clear - G B4y; lia.
         + intros E _. change (b2z (5 =? 3)) with 0. rewrite A1; [destruct (p =? w); reflexivity|exact E|clear - Hk; lia].
         + intros N. change (b2z (5 =? 3)) with 0. rewrite A0; [destruct (p =? w); reflexivity|].
-          intros [E _]. apply N. split; [exact E|lia].
+          intros [E _]. apply N. split; [exact E|clear; lia].
         + intros (E1 & E2 & E3) _. specialize (Lw E1 E2).
           destruct Lw as [[La _]|[Lc Lb]]; [exfalso; clear - La Pw; lia|].
           assert (Hpw : t_partner (S y) = Some w)
@@ -409,6 +414,94 @@ Section StepG.
     rewrite Ry, Rx', updS_same, (updS_other S y s2 x' Hx'y), Kcy, Kng, Hf1 in E. change (b2z true) with 1 in E.
     pose proof (b2z_leb 4 (t_state (S x'))) as [B1 B2].
     destruct Px' as [[P1 P2]|[P1 P2]]; [specialize (B1 P2); clear - E P1 B1; lia|].
-    specialize (B2 ltac:(lia)). clear - E P1 B2. lia.
+    specialize (B2 ltac:(clear - P2; lia)). clear - E P1 B2. lia.
+  Qed.
+
+  (* ============================================================ gain message *)
+  Lemma step_G y x g l1 l2 : rn y = true -> pd x y = l1 ++ M2Gain g :: l2 -> t_state (S y) = 4 ->
+    step_ok y x (M2Gain g) l1 l2.
+  Proof.
+    intros Ry Hp Hk s2 o2 e2 Hm.
+    pose proof (pending_nbr x y _ _ _ Hp) as Hxy. pose proof (nbrs_sym d y x Hxy) as Hyx.
+    pose proof (act_of d x y Hxy) as Hact.
+    pose proof (i_good _ _ _ _ _ HI y Ry Hact) as Gy.
+    assert (Hne : x <> y) by (apply nbr_ne; exact Hxy).
+    (* the sender runs, its gain is not yet in the table *)
+    pose proof (in_cnt_pos _ _ (in_pd _ _ _ _ _ _ Hp)) as Hc1. simpl in Hc1.
+    pose proof (i_pair _ _ _ _ _ HI x y Hxy) as Pxy.
+    assert (Hpx : rn x = true /\ ((t_cycle (S x) = t_cycle (S y) /\ 4 <= t_state (S x)) \/
+                                   (t_cycle (S x) = t_cycle (S y) + 1 /\ t_state (S x) = 1))).
+    { apply nbr_pos4; try assumption; [clear - Hk; lia|]. pose proof (b2z_range (kinv x (t_ng (S y)))) as Hr. clear - Hc1 Hr. lia. }
+    destruct Hpx as [Rx Px].
+    assert (Hkv : kinv x (t_ng (S y)) = false).
+    { pose proof (p_G _ _ _ _ _ Pxy) as E. unfold SG, CG in E. rewrite Rx, Ry in E.
+      pose proof (b2z_leb 4 (t_state (S x))) as [B1 B2].
+      destruct (kinv x (t_ng (S y))); [exfalso|reflexivity]. change (b2z true) with 1 in E.
+      destruct Px as [[P1 P2]|[P1 P2]]; [specialize (B1 P2); clear - E Hc1 P1 B1; lia|].
+      specialize (B2 ltac:(clear - P2; lia)). clear - E Hc1 P1 B2. lia. }
+    unfold mstep, on_msg in Hm. simpl kind_of in Hm. rewrite Hk in Hm. simpl negb in Hm. cbv iota in Hm.
+    rewrite (dict_set_fresh x g (t_ng (S y)) Hkv) in Hm.
+    match type of Hm with context [handle_gain_messages _ _ _ _ ?t] =>
+      assert (KK : skel t = (t_state (S y), t_cycle (S y), t_fin (S y), t_nv (S y), t_offers (S y), t_ng (S y) ++ [(x, g)],
+                             t_partner (S y), t_committed (S y), t_offerer (S y), t_pgain (S y)) /\ posts t = posts (S y))
+        by apply skel_set_ng;
+      remember t as s1 eqn:Es1 in * end.
+    clear Es1. destruct KK as [K1 Po1].
+    destruct (g_ng _ _ _ _ Gy) as [Nd Inc].
+    assert (Nd1 : NoDup (map fst (t_ng (S y) ++ [(x, g)])) /\ incl (map fst (t_ng (S y) ++ [(x, g)])) (nbr y)).
+    { rewrite map_app. simpl. split.
+      - apply NoDup_snoc; [exact Nd|]. apply kinv_false. exact Hkv.
+      - intros z Hz. apply in_app_or in Hz as [Hz|[<-|[]]]; [apply Inc; exact Hz|exact Hxy]. }
+    pose proof K1 as K1'.
+    unfold skel in K1. injection K1 as K1st K1cy K1fi K1nv K1of K1ng K1pa K1co K1or K1pg.
+    assert (SS1 : skelS s1 = skelS (S y)) by (unfold skelS; rewrite K1st, K1cy, K1fi, K1pa, K1co, K1or; reflexivity).
+    assert (Hlen : (length (t_ng s1) <= length (nbr y))%nat).
+    { rewrite K1ng. rewrite <- (map_length fst). apply NoDup_incl_length; apply Nd1. }
+    cbv zeta in Hm. rewrite zlen_eqb in Hm.
+    destruct (Nat.eqb (length (t_ng s1)) (length (nbr y))) eqn:Ez.
+    2:{ (* ---- the gain is filed, the table is not complete *)
+      apply Nat.eqb_neq in Ez. unfold ret2 in Hm.
+      injection Hm as <- <- <-.
+      assert (G1 : good y s1).
+      { destruct Gy. constructor; rewrite ?K1st, ?K1cy, ?K1fi, ?K1nv, ?K1of, ?K1ng, ?K1pa, ?K1co, ?K1or, ?K1pg; auto.
+        - intros H. rewrite Hk in H. lia.
+        - intros _. rewrite <- K1ng. lia.
+        - intros H. rewrite Hk in H. lia. }
+      split; [|split; [apply evok_nil; rewrite K1fi; reflexivity|split; [exact Po1|intros Hc; rewrite K1st in Hc; congruence]]].
+      apply (step_frame d stop rn S pd y s1 x (l1 ++ l2) [] HI Ry Hact Hxy G1).
+      - intros x' Hx'. assert (Hx'y : x' <> y) by (apply nbr_ne; exact Hx').
+        destruct (pd_step_recv pd x y l1 (M2Gain g) l2 [] x' Hp Hx'y) as [Hc Hi].
+        apply (pairI_store rn S pd); rewrite ?updS_same, ?updS_other by assumption; try reflexivity; try assumption;
+          rewrite ?Hc, ?K1nv, ?K1of, ?K1ng; simpl kind_of; try (rewrite andb_false_r; simpl; lia).
+        + rewrite kinv_snoc. destruct (Z.eqb_spec x' x) as [->|Hn]; simpl.
+          * rewrite Hkv. simpl. lia.
+          * rewrite orb_false_r. lia.
+        + intros f os _ H. left. exact H.
+        + apply (i_pair _ _ _ _ _ HI x' y Hx').
+      - intros w Hw. assert (Hwy : w <> y) by (apply nbr_ne; exact Hw).
+        apply (pairI_ext rn S pd); rewrite ?updS_same, ?updS_other by assumption; try reflexivity; try assumption.
+        + intros k. rewrite pd_step_send. simpl. rewrite app_nil_r. reflexivity.
+        + intros m0. rewrite pd_step_send. simpl. rewrite app_nil_r. auto.
+        + apply (i_pair _ _ _ _ _ HI y w (nbrs_sym d y w Hw)).
+      - intros w _. reflexivity. }
+    (* ---- the table is complete *)
+    apply Nat.eqb_eq in Ez. rewrite K1ng in Ez.
+    assert (Hcom : t_committed s1 = true -> t_pgain s1 <> 0 /\ exists p, t_partner s1 = Some p).
+    { rewrite K1co, K1pg, K1pa. intros H. destruct (g_com _ _ _ _ Gy H) as (H1 & p & H2 & _). split; [exact H1|exists p; exact H2]. }
+    destruct (hgm0_spec d stop y s1 Hcom) as [(Hco & s' & p & go & Hpa & E & K & Po)|(Hnc & s' & vs & pre & E & Vp & K & Po)];
+      rewrite E in Hm; injection Hm as <- <- <-; rewrite ?K1st, ?K1cy, ?K1fi, ?K1nv, ?K1of, ?K1ng, ?K1pa, ?K1co, ?K1or, ?K1pg in *.
+    - (* committed: the go / no-go is sent, state go *)
+      destruct (commit_ok y x g l1 l2 s' p go Ry Hp Hk Hkv Ez Hco Hpa K) as [HInv Hz].
+      skel_inv K.
+      split; [exact HInv|]. split; [apply evok_nil; exact Kfi|]. split; [congruence|].
+      intros _. rewrite Hk. exact Hz.
+    - (* not committed: end of the cycle *)
+      assert (Hfull : forall x', In x' (nbr y) ->
+                b2z (kinv x' (t_ng (S y))) + b2z ((x' =? x) && (kind_of (M2Gain g) =? 4)) = 1)
+        by (intros x' Hx'; apply (full_store y x g Gy Hxy Hkv Ez x' Hx')).
+      destruct (finish_ok y x (M2Gain g) l1 l2 s' vs Ry Hp (or_introl (conj Hk (conj Hnc eq_refl))) Hfull K) as [HInv Hz].
+      split; [exact HInv|]. split; [|split; [congruence|]].
+      + skel_inv K. apply evok_finish; assumption.
+      + intros _. exact Hz.
   Qed.
 End StepG.
